@@ -30,6 +30,10 @@ class SamplerCore:
         self.config = config
         self.state = state
 
+        # Seed the (global) stream used by all components for reproducibility
+        if config.random_state is not None:
+            np.random.seed(config.random_state)
+
         # Initialize components (moved from Sampler._initialize_steps)
         from .steps.reweight import Reweighter
         from .steps.train import Trainer
